@@ -1103,3 +1103,215 @@ class SetItemNative(Contract):
         yield "labels-dims-metadata-untouched", tuple(result.dims) == tuple(a.dims) and all(same(r.values, o) for r, o in zip(result.axes, [np.asarray(L, dtype=float) for L in env["labels"]])) and dict(result.attrs) == {"units": "K"}
         if not case["inplace"]:
             yield "operand-left-unchanged", same(a.values, before) and result is not a
+
+
+class SetItemBroadcast(Contract):
+    """a.put((I, J), v, broadcast=True) / a.put((I, j), v, broadcast=True) on a rank-2 array, and a.put((I, :, J), v) /
+    a.put((:, I, J), v) on a rank-3 array (NumPy's POINTWISE reading of several index arrays, the other documented indexing
+    mode): exactly the cells (I[k], J[k]) -- resp. (I[k], j), (I[k], q, J[k]) for every q, (q, I[k], J[k]) -- change, cell
+    k to v (scalar) or to v[k] (array value of the selection's shape, pairs distinct; the paired dimension comes first
+    when a slice separates the index arrays); every other cell, labels, dims and metadata are untouched; the values
+    _getitem(broadcast=True) reads through the same index are the written ones; inplace=False leaves the receiver alone.
+    Positions, and labels resolved through _get_indices' contract.  [C03]"""
+    target = "dimarray.core.bases:AbstractDimArray._setitem"
+    props = ("C03", "C15")
+    uses = (stub_of(GetIndices),)
+    inlined = ("_setvalues_broadcast", "_getvalues_broadcast", "DimArray.copy (copy.deepcopy)")
+    max_paths = 400
+
+    def cases(self, tier):
+        for kinds in (["array", "array"], ["array", "scalar"], ["scalar", "array"], ["array", "full", "array"], ["full", "array", "array"]):
+            for mode in ("position", "label"):
+                for value in ("scalar", "array"):
+                    for inplace in (True, False):
+                        if not inplace and (value == "array" or len(kinds) == 3):
+                            continue
+                        if len(kinds) == 3 and mode == "label" and value == "array":
+                            continue
+                        yield {"name": "%s-%s-%s-%s" % ("+".join(kinds), mode, value, "inplace" if inplace else "copy"), "rank": len(kinds), "kinds": kinds,
+                               "indexing": mode, "value": value, "inplace": inplace, "spelling": "tuple"}
+
+    def bound_lengths(self, case):
+        return ["lab%d.n" % d for d in range(case["rank"])] + ["m"]
+
+    def setup(self, S, case):
+        pos = case["indexing"] == "position"
+        rank = case["rank"]
+        arr, labels, data = make_dimarray(S, rank, index_orders(case["kinds"]) if not pos else None)
+        m = S.length("m")
+        idx = []
+        for d, k in enumerate(case["kinds"]):
+            n = S.n(labels[d])
+            if k == "full":
+                i = slice(None)
+            elif k == "array":
+                i = S.array1d("ix%d" % d, "I" if pos else DIM_KINDS[d], n=m)
+                if pos:
+                    S.assume(S.forall(0, m, lambda a, i=i, n=n: S.land(0 <= S.at(i, a), S.at(i, a) < n)), "positions in range")
+                else:
+                    S.assume(S.forall(0, m, lambda a, i=i, L=labels[d]: S.exists(0, S.n(L), lambda p: S.at(L, p) == S.at(i, a))), "labels on the axis")
+            else:
+                if pos:
+                    i = S.int("ix%d" % d)
+                    S.assume(S.land(0 <= i, i < n), "position in range")
+                else:
+                    i = S.label("ix%d" % d, DIM_KINDS[d])
+                    S.assume(S.exists(0, n, lambda p, L=labels[d], i=i: S.at(L, p) == i), "label on the axis")
+            idx.append(i)
+        arr.attrs["units"] = "K"
+        env = {"arr": arr, "labels": labels, "idx": idx, "indices": tuple(idx), "kwargs": {"indexing": case["indexing"]}, "m": m,
+               "attrs0": dict(arr.attrs), "data": arr.values, "old": S.snapshot(arr.values)}
+        # the selection's layout: the paired dimension, and the full dimension before or after it
+        full = [d for d, k in enumerate(case["kinds"]) if k == "full"]
+        env["layout"] = layout = (["pair"] if not full else (["pair", full[0]] if full[0] == 1 else [full[0], "pair"]))
+        if case["value"] == "scalar":
+            env["value"] = S.real("v")
+        else:
+            env["value"] = S.arraynd("v", "f", tuple(m if e == "pair" else S.n(labels[e]) for e in layout))
+        return env
+
+    def call(self, fn, env):
+        case, arr = env["case"], env["arr"]
+        out = arr._setitem(env["indices"], env["value"], inplace=case["inplace"], broadcast=True, **env["kwargs"])
+        target = arr if case["inplace"] else out
+        # what the same index READS in this mode: _getitem(broadcast=True) takes its values from _getvalues_broadcast at the
+        # positions _get_indices returns (the axis it builds next to them -- tuples of labels -- is checked natively: TakeBroadcastNative)
+        calls = env["S"].calls("GetIndices")
+        pos = calls[0][3] if calls else target._get_indices(env["indices"], **env["kwargs"])
+        env["readback"] = target._getvalues_broadcast(pos) if S_is_da(target) else None
+        return out
+
+    def raises(self, S, case, env):
+        return {IndexError: False, ValueError: False}
+
+    def post(self, S, case, env, result):
+        arr, labels, old, m, layout = env["arr"], env["labels"], env["old"], env["m"], env["layout"]
+        rank, kinds = case["rank"], case["kinds"]
+        target = arr if case["inplace"] else result
+        if case["inplace"]:
+            yield "in-place-returns-none", result is None
+        else:
+            yield "copy-returned", S.land(S.is_dimarray(result), result is not arr, S.lnot(S.same_buffer(result.values, arr.values)))
+            yield "receiver-untouched", S.forall_nd(S.shape(old), lambda *p: S.same(S.at(arr.values, *p), S.at(old, *p)))
+        new = target.values
+        v = env["value"]
+        calls = S.calls("GetIndices")
+        pos = calls[0][3] if calls else target._get_indices(env["indices"], **env["kwargs"])
+        selshape = [m if e == "pair" else S.n(labels[e]) for e in layout]
+
+        def cell(sel):
+            """the source cell addressed by the selection coordinate `sel` (laid out as `layout`)"""
+            k = sel[layout.index("pair")]
+            return [S.at(pos[d], k) if kinds[d] == "array" else (sel[layout.index(d)] if kinds[d] == "full" else pos[d]) for d in range(rank)]
+
+        def pair_at(k):
+            return [S.at(pos[d], k) if kinds[d] == "array" else pos[d] for d in range(rank) if kinds[d] != "full"]
+        if case["value"] == "scalar":
+            yield "addressed-cells-hold-the-value", S.forall_nd(selshape, lambda *sel: S.same(S.at(new, *cell(sel)), v))
+        else:
+            once = S.forall2(0, m, lambda a, b: S.lor(*[x != y for x, y in zip(pair_at(a), pair_at(b))]))
+            yield "addressed-cells-hold-the-value", S.implies(once, lambda: S.forall_nd(selshape, lambda *sel: S.same(S.at(new, *cell(sel)), S.at(v, *sel))))
+        yield "other-cells-untouched", S.forall_nd(S.shape(old), lambda *p: S.lor(
+            S.same(S.at(new, *p), S.at(old, *p)),
+            S.exists(0, m, lambda k: S.land(*[x == p[d] for x, d in zip(pair_at(k), [d for d in range(rank) if kinds[d] != "full"])]))))
+        rb = env["readback"]
+        yield "read-back-has-the-selections-shape", S.land(len(S.shape(rb)) == len(selshape), *[S.shape(rb)[t] == selshape[t] for t in range(min(len(selshape), len(S.shape(rb))))])
+        yield "read-back-returns-the-addressed-cells", S.forall_nd(selshape, lambda *sel: S.same(S.at(rb, *sel), S.at(new, *cell(sel))))
+        if case["value"] == "scalar":
+            yield "read-back-returns-what-was-written", S.forall_nd(selshape, lambda *sel: S.same(S.at(rb, *sel), v))
+        yield "labels-dims-metadata-untouched", S.land(
+            tuple(target.dims) == tuple("x%d" % d for d in range(rank)), dict(target.attrs) == env["attrs0"],
+            *[S.forall(0, S.n(labels[d]), lambda k, d=d: S.at(target.axes[d].values, k) == S.at(labels[d], k)) for d in range(rank)])
+
+    def canaries(self, S, case, env, result):
+        target = env["arr"] if case["inplace"] else result
+        yield "nothing-written", S.forall_nd(S.shape(env["old"]), lambda *p: S.same(S.at(target.values, *p), S.at(env["old"], *p)))
+
+
+def S_is_da(x):
+    return hasattr(x, "axes") and hasattr(x, "values")
+
+
+class TakeBroadcastNative(Contract):
+    """BOUNDED STAND-IN ONLY (never counted as proved).  a.take((I, J), broadcast=True) (labels or positions; rank 2, and rank 3
+    with a full slice before / between the index arrays): the values are the cells at the PAIRS (I[k], J[k]) laid out as NumPy
+    lays them out, the paired dimension is one axis named 'x0,x1' (the names of the paired dimensions joined) whose label k is
+    the TUPLE of the paired labels, the sliced dimension keeps its axis, metadata is kept, the operand is untouched; with one
+    array and one scalar the array's dimension keeps its own name and the selected labels.  The axis of tuples is a Python
+    list built by zip: its length is not a symbolic quantity for the verifier.  Labels of length 1-3, index arrays of length
+    0-3.  [C03: what 'the cells the same index reads' are in this mode]"""
+    target = "dimarray.core.indexing:getaxes_broadcast"
+    props = ("C03",)
+    native_only = True
+
+    def cases(self, tier):
+        for kinds in (["array", "array"], ["array", "scalar"], ["array", "full", "array"], ["full", "array", "array"]):
+            for mode in ("position", "label"):
+                yield {"name": "%s-%s" % ("+".join(kinds), mode), "kinds": kinds, "indexing": mode, "rank": len(kinds)}
+
+    def setup(self, S, case):
+        from .common import assume_order
+        labels = []
+        for d in range(case["rank"]):
+            L = S.array1d("lab%d" % d, "f" if d != 1 else "O")
+            assume_order(S, L, "unique")
+            S.assume(S.n(L) >= 1, "non-empty")
+            labels.append(L)
+        data = S.arraynd("data", "f", tuple(S.n(L) for L in labels))
+        m = S.length("m")
+        q = [S.array1d("q%d" % d, "I", n=m) for d in range(case["rank"])]
+        return {"labels": labels, "data": data, "q": q, "m": m, "p": S.int("p")}
+
+    def call(self, fn, env):
+        import numpy as np
+        S, case = env["S"], env["case"]
+        labels = [np.asarray(L) for L in env["labels"]]
+        a = S.da.DimArray(np.array(env["data"], dtype=float), axes=[("x%d" % d, L.copy()) for d, L in enumerate(labels)])
+        a.attrs["units"] = "K"
+        pos = []
+        for d, k in enumerate(case["kinds"]):
+            n = len(labels[d])
+            if k == "array":
+                pos.append(np.asarray([int(t) % n for t in np.asarray(env["q"][d])], dtype=int))
+            elif k == "scalar":
+                pos.append(int(env["p"]) % n)
+            else:
+                pos.append(slice(None))
+        if case["indexing"] == "position":
+            key = tuple(pos)
+        else:
+            key = tuple(p if isinstance(p, slice) else (labels[d][p].tolist() if not isinstance(p, int) else labels[d][p].item() if hasattr(labels[d][p], "item") else labels[d][p]) for d, p in enumerate(pos))
+        env.update({"a": a, "before": a.values.copy(), "pos": pos, "nplabels": labels})
+        return a.take(key, broadcast=True, indexing=case["indexing"])
+
+    def post(self, S, case, env, result):
+        import numpy as np
+        a, pos, labels, kinds = env["a"], env["pos"], env["nplabels"], case["kinds"]
+        exp = env["before"][tuple(pos)]
+        same = lambda x, y: np.asarray(x).shape == np.asarray(y).shape and bool(np.all((np.asarray(x) == np.asarray(y)) | (np.isnan(np.asarray(x, dtype=float)) & np.isnan(np.asarray(y, dtype=float)))))
+        yield "is-dimarray", S.is_dimarray(result)
+        yield "values-are-the-cells-at-the-pairs", same(result.values, exp)
+        arrs = [d for d, k in enumerate(kinds) if k == "array"]
+        full = [d for d, k in enumerate(kinds) if k == "full"]
+        if len(arrs) == 2:
+            pname = ",".join("x%d" % d for d in arrs)
+            plabels = [tuple(labels[d][pos[d][k]].item() if hasattr(labels[d][pos[d][k]], "item") else labels[d][pos[d][k]] for d in arrs) for k in range(len(pos[arrs[0]]))]
+            if not full:
+                dims = [pname]
+            elif full[0] == 1:
+                dims = [pname, "x1"]
+            else:
+                dims = ["x0", pname]
+            yield "dims", list(result.dims) == dims
+            if list(result.dims) == dims:
+                got = [tuple(t) for t in result.axes[pname].values.tolist()] if len(plabels) else list(result.axes[pname].values)
+                yield "paired-axis-holds-the-tuples-of-labels", got == plabels
+                if full:
+                    yield "sliced-axis-kept", list(result.axes["x%d" % full[0]].values) == list(labels[full[0]])
+        else:
+            d = arrs[0]
+            yield "dims", list(result.dims) == ["x%d" % d]
+            if list(result.dims) == ["x%d" % d]:
+                yield "axis-holds-the-selected-labels", list(result.axes[0].values) == list(labels[d][pos[d]])
+        yield "metadata-kept", dict(result.attrs) == {"units": "K"}
+        yield "operand-untouched", same(a.values, env["before"]) and all(list(a.axes[d].values) == list(labels[d]) for d in range(case["rank"]))
